@@ -11,6 +11,11 @@
 // shared trie node cache and are flushed in a generated order (older first, younger first,
 // interleaved with further state commits, some never) - what the chain insert and the fork
 // processor (no common lock, one NodeDatabase) and retries of failed flushes can produce.
+// In 4 of 10 blocks generated runs of the mutations sit inside journal scopes (Snapshot ...
+// RevertToSnapshot, nested up to depth 3, also rewriting what the same block wrote before the
+// scope and what earlier blocks committed); the model does not apply reverted runs, and for such
+// a block the expectation is read from the warm AccountDB after IntermediateRoot(true), right
+// before Commit(true) - the property's own wording.
 // recDB is the disk; it records every physical write (Put, Delete, each Batch.Write = one atomic
 // unit) and can make one write fail (error returned, nothing applied).
 //
@@ -63,13 +68,18 @@ func TestMain(m *testing.M) {
 		"that its flush spans >=2 physical batches; in half of the histories state commits (AccountDB.Commit) stay pending in the shared node cache and the flushes " +
 		"(TrieDB().Commit) come in a generated order: older first, younger first, interleaved with further state commits, some never); every prefix of the physical writes of " +
 		"every flush attempt is checked. non-trivial = the history contains a crash prefix strictly inside a multi-batch flush, or deletes an account in one commit and " +
-		"re-creates it in a later one, or flushes an older root after a younger one that was state-committed later; distinct by hash of the whole generated history")
+		"re-creates it in a later one, or flushes an older root after a younger one that was state-committed later, or reverts (RevertToSnapshot) a run of mutations that rewrote " +
+		"an account/slot/balance which the un-reverted part of the same block had already written; distinct by hash of the whole generated history")
 	stats.Assume("crash model: a prefix of whole Put/Delete/Batch.Write operations (LevelDB batch atomicity and ordering trusted)")
 	stats.Assume("usage as in core: one AccountDB per block, IntermediateRoot(true) only at the end of a block (vmexecutor), state commit = AccountDB.Commit(true), flush = TrieDB().Commit(root,false) " +
 		"(blockchain_add.go saveStates, fork_block.go saveState); 'a commit reported success for a root' = both calls returned nil for it. " +
 		"A flush whose disk write failed is retried (at once or after other blocks) by Commit(true) on the same cached state object + TrieDB().Commit, or never")
 	stats.Assume("flush orders: saveStates (under the chain lock) and the fork processor's saveState (own lock only, separate goroutine) share one NodeDatabase, so two state-committed roots can be pending " +
 		"and be flushed in either order; failed flushes add further pending roots. Histories with more than two never-failed pending roots are generated too and tagged sched:beyond_two_concurrent_callers")
+	stats.Assume("journal scopes: in 4 of 10 blocks generated runs of the mutations are wrapped in Snapshot()/RevertToSnapshot() (nested to depth 3; 1 scope in 4 ends without revert; scopes may stay open) as the executors do " +
+		"per transaction / inner call; the model does not apply reverted runs. Such a block always ends with IntermediateRoot(true) (as vmexecutor does) and its expectation is what the warm AccountDB answers after it, " +
+		"right before Commit(true) (Exist/GetNonce/GetCodeHash/GetCode/GetData over every key ever used/GetBalance): what a revert leaves behind in the object (known F-C04-a/b: nil cache entry, dirty mark) and thereby " +
+		"whether Finalise keeps an account is C04's subject and is only counted here (class revert:warm_state_before_commit_differs...)")
 	stats.Assume("balances live in the storage of the token contract bound by AddERC20Binding in the first block (as the genesis builder does); nonces are only set to values >= 1; storage keys are 1-40 bytes; " +
 		"nil and zero-length answers are the same answer")
 	stats.Exhaustive("every prefix of the recorded physical write sequence of every commit attempt of each generated history (histories themselves are sampled)")
